@@ -330,6 +330,7 @@ fn encode(r: &RunResult) -> Vec<u8> {
     }
     w.u64(d.clock_ns);
     w.u64(d.mtime_seed);
+    w.u64(d.epoch as u64);
     w.0
 }
 
@@ -418,6 +419,7 @@ fn decode(gen: Gen, buf: &[u8]) -> Result<RunResult, String> {
     }
     disk.clock_ns = r.u64()?;
     disk.mtime_seed = r.u64()?;
+    disk.epoch = r.u64()? as u32;
     Ok(RunResult {
         gen,
         profile: None,
